@@ -24,7 +24,7 @@ Params == CASE Kind = "spectrometer"  -> {"w2p", "mbp", "name"}
             [] Kind = "czerny"        -> {"order", "grating", "focal", "spacing", "angle", "acc", "mbp", "name"}
             [] Kind = "polychromator" -> {"filters", "mbw", "name"}
 Values(p) == IF p \in {"w2p", "acc"} THEN 1..5          \* 4: spectra listed in descending order, 5: a short spectrum nested in a wide one
-             ELSE IF p = "filters" THEN 1..3
+             ELSE IF p = "filters" THEN 1..5         \* 4: a narrow filter listed before a broad one that contains it, 5: overlapping, descending
              ELSE IF p \in {"mbp", "mbw"} THEN {1, 2, 4}
              ELSE 1..2
 \* values the setter must refuse (ValueError) leaving everything unchanged; 0 / -1 are the ids of invalid inputs
@@ -113,9 +113,11 @@ Layout(i) == CASE i = 1 -> << <<500, 501, 502, 504>> >>
 FilterSet(i) == CASE i = 1 -> << <<500, 4>> >>
                   [] i = 2 -> << <<500, 4>>, <<656, 2>> >>
                   [] i = 3 -> << <<434, 8>>, <<656, 2>>, <<500, 4>> >>
+                  [] i = 4 -> << <<656, 2>>, <<655, 30>> >>
+                  [] i = 5 -> << <<660, 8>>, <<656, 6>>, <<650, 10>> >>
 
 \* the tables, for the conformance harness
-ASSUME PrintT(ToJson([tables |-> Kind, layouts |-> [i \in 1..5 |-> Layout(i)], filtersets |-> [i \in 1..3 |-> FilterSet(i)]]))
+ASSUME PrintT(ToJson([tables |-> Kind, layouts |-> [i \in 1..5 |-> Layout(i)], filtersets |-> [i \in 1..5 |-> FilterSet(i)]]))
 
 SetMin(S) == CHOOSE x \in S : \A y \in S : x <= y
 SetMax(S) == CHOOSE x \in S : \A y \in S : x >= y
